@@ -22,6 +22,8 @@ def run(ctx):
     ctx.rule("C16.3", "63 / 255 limits dominate construction; a label after an empty label and a missing root label are rejected")
     ctx.rule("C16.4", "the recorded length is built only from the label count and the label lengths (wire: +1 per length octet, + label, + pointed-to name)")
     ctx.rule("C16.5", "label bytes pass through to_ascii_lowercase; Eq/Hash/Ord of Label and DomainName are derived (byte-wise on lower-cased bytes)")
+    ctx.rule("C16.8", "text reader: from_dotted_string gives up (None) only for the stated reasons - a label that cannot be built (too long), an empty label that is not the last, or from_labels rejecting the whole - never on a shortcut test of the text")
+    ctx.rule("C16.9", "text writer: to_dotted_string writes every octet of every label as that one character (nothing is escaped or dropped at this layer), labels separated by dots")
     ctx.rule("C16.6", "is_subdomain_of = label-wise suffix (slice::ends_with)")
     ctx.decline("dotted-text round trip for all strings (value property)")
 
@@ -77,8 +79,46 @@ def run(ctx):
         ctx.check(ok, "C16.3", "Label::try_from:limit", "Label built only if len <= LABEL_MAX_LEN", "a label longer than 63 octets can be constructed", tf.loc(b, i))
         e = tfr.rvalue(st["rv"], (b, i))
         oct_ = dict(e[3])["octets"]
-        okc = bool(A.calls_in(oct_, lambda n: n.endswith("to_ascii_lowercase"))) and any(A.peel(x) == ("param", 1) for x in A.walk(oct_))
+        # every way the octets can have been produced goes through the lower-casing (not just one alternative of a merge)
+        po = A.peel(oct_)
+        alts_ = po[1] if po[0] == "phi" else [oct_]
+        okc = all(bool(A.calls_in(a_, lambda n: n.endswith("to_ascii_lowercase"))) and any(A.peel(x) == ("param", 1) for x in A.walk(a_)) for a_ in alts_)
         ctx.check(okc, "C16.5", "Label::try_from:lowercase", "octets = to_ascii_lowercase(input)", "label octets are %s" % A.show(oct_), tf.loc(b, i))
+    # ---- C16.8
+    fd = prog.fn(DN + "::from_dotted_string")
+    fdr = A.Resolver(fd)
+    fdc = A.Conds(fd, fdr)
+    def label_failed(fc):
+        if fc[0] != "is" or fc[1] not in ("Err", "None"):
+            return False
+        return any(x[0] == "call" and (x[1].endswith("TryInto<U>>::try_into") or x[1].endswith("try_from") or x[1].endswith("Result::<T, E>::ok")) for x in A.walk(fc[2]))
+    def blank_chunk(fc):
+        return fc[0] == "call" and fc[1].endswith("<impl str>::is_empty") and fc[3] is True
+    n8 = 0
+    for b, e in A.return_exprs(fd, fdr):
+        pe = A.peel(e)
+        if not (pe[0] == "agg" and pe[2] == "None"):
+            continue
+        n8 += 1
+        okr, _ = fdc.guarded(b, lambda fc: label_failed(fc) or blank_chunk(fc))
+        ctx.check(okr, "C16.8", "from_dotted_string:none#%d" % n8, "None only for an unbuildable label or an interior empty label",
+                  "from_dotted_string can return None without a label having failed", fd.loc(b))
+    ctx.floor("C16.8", "None returns of from_dotted_string", n8, 1)
+    # ---- C16.9
+    td = prog.fn(DN + "::to_dotted_string")
+    tdr = A.Resolver(td)
+    inner = sorted(td.loops(), key=lambda x: len(x[1]))[:1]          # the per-octet loop is the innermost one
+    ok9 = bool(inner)
+    if ok9:
+        h9, body9 = inner[0]
+        pushes9 = [(b, tdr.call_expr(td.term(b), b)) for b in body9 if td.term(b)["k"] == "call" and (td.term(b).get("callee") or "").endswith("String::push")]
+        others9 = [b for b in body9 if td.term(b)["k"] == "call" and ((td.term(b).get("callee") or "").endswith("String::push_str") or "fmt" in (td.term(b).get("callee") or ""))]
+        def is_elem_char(v):
+            v = A.peel(v)
+            return v[0] == "cast" and A.iter_elem_source(A.peel(v[1])) is not None or (v[0] == "cast" and any(A.iter_elem_source(x) is not None for x in A.walk(v[1])))
+        ok9 = len(pushes9) == 1 and is_elem_char(pushes9[0][1][2][1]) and not others9 and not td.has_cycle(removed_blocks=[pushes9[0][0]], within=body9)
+    ctx.check(ok9, "C16.9", "to_dotted_string:octets-verbatim", "each octet is pushed as `octet as char`, on every iteration, and nothing else is written per octet",
+              "to_dotted_string does not write every octet verbatim", td.loc())
     ln = prog.fn(LB + "::new")
     lnr = A.Resolver(ln)
     for b, i, st in A.aggregates(ln, LB):
